@@ -190,11 +190,29 @@ impl PredicatePushdown {
                 let input_schema = node.input.schema();
                 let input_cols = self.collect_columns(&input_schema);
 
+                // Output names this projection COMPUTES (`COALESCE(u.c, 0) AS c`,
+                // `b AS a`): a predicate over such a name means the computed
+                // value, not an input column that happens to share the name.
+                let computed: HashSet<&str> = node
+                    .exprs
+                    .iter()
+                    .zip(node.schema.fields().iter())
+                    .filter(|(e, f)| {
+                        let mut inner: &Expr = e;
+                        while let Expr::Alias { expr, .. } = inner {
+                            inner = expr;
+                        }
+                        !matches!(inner, Expr::Column(c) if c.name == f.name)
+                    })
+                    .map(|(_, f)| f.name.as_str())
+                    .collect();
+
                 // Check if predicates can be pushed (all referenced columns exist in input)
                 let (pushable, remaining): (Vec<Expr>, Vec<Expr>) =
                     predicates.into_iter().partition(|p| {
                         let pred_cols = self.extract_columns(p);
                         self.columns_subset(&pred_cols, &input_cols)
+                            && !pred_cols.iter().any(|c| computed.contains(c.name.as_str()))
                     });
 
                 let result = self.pushdown(&node.input, pushable)?;
